@@ -541,6 +541,19 @@ def _add(r, obs, lena):
         far = [x[-1] + abs(x[-1]) + 1 for x in Eb]
         b.fill(far[0] if len(Eb) == 1 else far, r["boor"])
     w = r["w"]
+    # operands whose scale was computed (or set by a rescale) before the addition
+    pre_scaled = rng.random()
+    try:
+        if pre_scaled < 0.35:
+            a.scale()
+        elif pre_scaled < 0.5 and a.scale() != 0:
+            a.scale(rng.choice([1, 2.5, 100]))
+        if 0.3 < pre_scaled < 0.6:
+            b.scale()
+        obs.count("add_operands_scaled_before")
+    except Exception:  # pylint: disable=broad-except
+        pass
+    res = None
     try:
         if r["how"] == "default" or w == 1 and r["how"] == "pos" and rng.random() < 0.5:
             res = a.add(b)
@@ -549,6 +562,10 @@ def _add(r, obs, lena):
         else:
             res = a.add(b, w)
         obs.count("add_returned")
+        # the sum used like any histogram: its scale, then a rescale (both under contract)
+        s0 = res.scale()
+        if s0 != 0 and con.fin(s0):
+            res.scale(rng.choice([1, 3, 0.5]))
     except lena.core.LenaValueError:
         obs.count("rejections_observed")
     except Exception:  # pylint: disable=broad-except
